@@ -215,10 +215,10 @@ def run(chk):
     bg = []
 
     def design():
-        def job(name, cfg, module="MCTwoPC", expect=None, workers=W, timeout=2400, **kw):
+        def job(name, cfg, module="MCTwoPC", expect=None, workers=W, timeout=2400, deadlock=False, **kw):
             d = os.path.join(chk.tmp, "mc-" + cfg)
             V.copy_specs(specsrc, d)
-            res = V.tlc(d, module, cfg=cfg + ".cfg", workers=workers, timeout=timeout, deadlock=False, **kw)
+            res = V.tlc(d, module, cfg=cfg + ".cfg", workers=workers, timeout=timeout, deadlock=deadlock, **kw)
             bg.append((name, res, expect))
         job("MC3 exhaustive: 3 replicas, 2 writers x 1 section + solo phase (M => P)", "MC3")
         job("DWReplay with the sender-time filter: the double-winner schedule cannot be followed", "DWReplayFilter",
@@ -227,7 +227,7 @@ def run(chk):
             module="LCReplay", workers=1)
         job("LAReplay, repaired model: the lost Abort is sent again, the captured replica is released, the writer on it "
             "commits in its first solo section (schedule followed to its end, M => P invariants on the way)",
-            "LAReplayResendFollowed", module="LAReplay", workers=1, check_deadlock=True)
+            "LAReplayResendFollowed", module="LAReplay", workers=1, deadlock=True, jvm=LIGHT_JVM)
         if not quick:
             job("MC2 exhaustive: 2 replicas, 2 writers x 2 sections, drop 1, duplicate 1", "MC2")
             job("MC3Faults exhaustive: 3 replicas, 2 writers x 1 section + solo phase, drop 1, duplicate 1", "MC3Faults", timeout=5400)
